@@ -7,5 +7,6 @@ CONSTANTS
   TemplateNames = {"id", "elem", "wrap", "mk", "val", "key", "unopt", "call", "pair", "same", "swap", "nest", "optarr", "optid", "optwrap", "optelem", "optval", "unoptarr", "mkopt"}
   Depth3From = {"arr", "map", "opt"}
   Depth3Cons = {"arr", "opt", "map"}
+  UnionOfContainers = TRUE
   SecondArgKinds = {"opt", "union"}
-INVARIANTS Closed IdLaw ElemWrap OptLaw ExpectedWf Emit
+INVARIANTS Closed IdLaw ElemWrap OptLaw ExpectedWf NoMemberDropped Emit
